@@ -265,8 +265,6 @@ def run(case, tmp):
         check_data(np.ascontiguousarray(pv.reshape(gc.nrows, gc.ncols)),
                    gc.data, "clip vs parent values at coinciding centres")
         labels.append("clip")
-        if np.shares_memory(gc.data, g.data):
-            raise Violation("clipped grid shares memory with its parent")
     else:
         labels.append("clip:corners-moved-by-rounding")
 
